@@ -24,7 +24,7 @@ def full_alphabet():
         {'op': 'dilute', 'obj': 'B', 'solute': 'nacl', 'conc': '1 M', 'solvent': 'dmso'},      # above the current conc.
         {'op': 'dilute', 'obj': 'B', 'solute': 'nacl', 'conc': '0.01 M', 'solvent': 'dmso'},   # beyond the capacity
         {'op': 'dilute', 'obj': 'A', 'solute': 'nacl', 'conc': '0.05 M', 'solvent': 'water'},
-        {'op': 'dilute', 'obj': 'A', 'solute': 'nacl', 'conc': '0.08 M', 'solvent': 'water', 'new_name': 'A-diluted'},
+        {'op': 'dilute', 'obj': 'A', 'solute': 'nacl', 'conc': '0.08 M', 'solvent': 'water', 'new_name': 'A2'},
         {'op': 'observe', 'obj': 'P'}, {'op': 'observe', 'obj': ['P', "(slice(None), slice(2, 3))"]}, {'op': 'observe', 'obj': 'A'},
         {'op': 'observe', 'obj': ['Q', "1"]},
         {'op': 'create_solution', 'solute': 'nacl', 'solvent': 'water', 'name': 'S',
